@@ -25,14 +25,15 @@ def build(ch):
     st = Deck('c16 boundary conditions')
     f20 = ch.choose('flag20', ['', '*', '+'], free=True)
     f50 = ch.choose('flag50', ['', '*', '+'], free=True)
-    f60 = ch.choose('flag60', ['', '*'], free=True)
-    f70 = ch.choose('flag70', ['', '+'], free=True)
-    copy = ch.choose('copy', ['none', 'lower', 'higher', 'both'], free=True)
-    copy_used = ch.choose('copy-used', [False, True], free=True) if copy != 'none' else False
-    f55 = ch.choose('flag55', ['', '*', '+'], free=True)
+    f60 = ch.choose('flag60', ['', '*'])
+    f70 = ch.choose('flag70', ['', '+'])
+    copy = ch.choose('copy', ['none', 'lower', 'higher', 'both', 'macro-lower'], free=True)
+    macro_twin = ch.choose('macro-twin', [False, True])
+    copy_used = ch.choose('copy-used', [False, True]) if copy != 'none' else False
+    f55 = ch.choose('flag55', ['', '*', '+'])
     kind50 = ch.choose('kind50', ['so', 'sq', 'sq-tr', 'so-tr', 'gq-tr', 's-tr'], free=True)
-    tr20 = ch.choose('tr-on-20', [False, True], free=True)
-    macro = ch.choose('macro-flag', ['', '*', '+'], free=True)
+    tr20 = ch.choose('tr-on-20', [False, True])
+    macro = ch.choose('macro-flag', ['', '*', '+'])
     skip = ch.choose('skip-dedup', [False, True], free=True)
     st.cells = ['1 0 10 -20 30 -40 imp:n=1',
                 '2 0 -50 (-10:20:-30:40) 55 imp:n=1',
@@ -57,11 +58,19 @@ def build(ch):
               'gq-tr': ('gq', [1, 1, 1, 0, 0, 0, 0, 0, 0, -64]), 's-tr': ('s', [0.1, 0, 0, 8.0])}[kind50]
     ref50 = refsem.mcnp_surface(*base50)
     st.ref50 = ref50.moved(m8) if kind50.endswith('-tr') else ref50
+    if copy == 'macro-lower':
+        # an unflagged macrobody with a lower number whose first facet is the plane x = 3
+        st.surfs.append('15 rpp -9 3 -3 3 -30 30')
+    if macro_twin:
+        # a plain surface with a lower number that coincides with the first facet of the (possibly flagged) macrobody 80
+        st.surfs.append('8 px 1')
     if copy in ('lower', 'both'):
         st.surfs.append('15 px 3')
     if copy in ('higher', 'both'):
         st.surfs.append('25 px 3')
-    if copy_used:
+    if copy_used and copy == 'macro-lower':
+        st.cells[1] = '2 0 -50 (-10:15.1:-30:40) 55 imp:n=1'
+    elif copy_used:
         c = 15 if copy in ('lower', 'both') else 25
         st.cells[1] = '2 0 -50 (-10:%d:-30:40) 55 imp:n=1' % c
     if macro:
@@ -78,7 +87,9 @@ REF = {20: refsem.mcnp_surface('px', [3.0]), 50: refsem.mcnp_surface('so', [8.0]
 
 
 def scenarios(tier):
-    return [Scn('flags', build, None, None, 'complete product')]
+    return [Scn('flags', build, 2 if tier == 'quick' else 3, 3,
+                'flags on the two bounding surfaces x copies x kinds x de-duplication: complete product; the other '
+                'choices (further flagged surfaces, TR, macrobodies) deviation-bounded')]
 
 
 def check_state(scn, st, corrupt=False):
